@@ -32,6 +32,9 @@ type Caps struct {
 	// answer the other queries that have a negative form negatively instead of
 	// staying silent: XTSMGRAPHICS with an error status, XTGETTCAP with 0+r.
 	DECRPMAbsent int
+	// KittyInitial: keyboard flags already pushed on the main screen's stack
+	// before Vaxis starts (a shell that uses the protocol); 0 = none
+	KittyInitial int
 	// TcapNoValue: a positive XTGETTCAP reply carries the capability name
 	// only (DCS 1 + r <name> ST), the form terminals use for boolean
 	// capabilities, instead of <name>=<value>
